@@ -97,6 +97,8 @@ type c10Case struct {
 	RuleOther bool `json:"rule_other,omitempty"`
 	// exec jwtkey: x5c chain [leaf, root]; Chain = NotAfter of the root relative to now (seconds), nil = the leaf alone
 	Chain *int64 `json:"chain,omitempty"`
+	// exec generic: the session's not_after is an RFC 3339 string, parsed through session_lifespan.time_format
+	TimeFmt bool `json:"time_format,omitempty"`
 	// exec jwtkey: prototype with validate_jwk: true and a trust store (the root)
 	Validate bool `json:"validate,omitempty"`
 	// http: time between the first and the second request (redis only: FastForward); the transport fails on the second
@@ -349,6 +351,11 @@ func newEnv(t *testing.T) *env {
 		exp := ""
 		if parts[1] != "none" {
 			exp = `,"exp":` + parts[1]
+
+			if n, err := strconv.ParseInt(parts[1], 10, 64); err == nil && parts[0] == "F" {
+				// a zone other than UTC on purpose: the layout carries the offset
+				exp = `,"exp":"` + time.Unix(n, 0).In(time.FixedZone("c10", 3*3600)).Format(time.RFC3339) + `"`
+			}
 		}
 
 		fmt.Fprintf(w, `{"active":true,"sub":"u","n":%d%s}`, e.ctr.Add(1), exp)
@@ -457,6 +464,17 @@ func newEnv(t *testing.T) *env {
 
 			protos.Authenticators = append(protos.Authenticators,
 				config.Mechanism{ID: fmt.Sprintf("generic_%t_%d", sess, i), Type: "generic", Config: withTTL(c, "cache_ttl", v)})
+
+			if sess {
+				cf := config.MechanismConfig{}
+				for k, x := range c {
+					cf[k] = x
+				}
+
+				cf["session_lifespan"] = map[string]any{"active": "active", "not_after": "exp", "time_format": time.RFC3339}
+				protos.Authenticators = append(protos.Authenticators,
+					config.Mechanism{ID: fmt.Sprintf("genericfmt_%d", i), Type: "generic", Config: withTTL(cf, "cache_ttl", v)})
+			}
 		}
 
 		protos.Authorizers = append(protos.Authorizers,
@@ -544,12 +562,12 @@ func (e *env) rootCert(notAfter time.Time) *x509.Certificate {
 
 	der, err := x509.CreateCertificate(rand.Reader, tpl, tpl, &e.ca.PublicKey, e.ca)
 	if err != nil {
-		e.t.Fatal(err)
+		panic(err)
 	}
 
 	crt, err := x509.ParseCertificate(der)
 	if err != nil {
-		e.t.Fatal(err)
+		panic(err)
 	}
 
 	return crt
@@ -581,12 +599,12 @@ func (e *env) setJWKS(leafNA, rootNA *int64) {
 
 		der, err := x509.CreateCertificate(rand.Reader, tpl, parent, &e.key.PublicKey, signer)
 		if err != nil {
-			e.t.Fatal(err)
+			panic(err)
 		}
 
 		crt, err := x509.ParseCertificate(der)
 		if err != nil {
-			e.t.Fatal(err)
+			panic(err)
 		}
 
 		jwk.Certificates = []*x509.Certificate{crt}
@@ -597,7 +615,7 @@ func (e *env) setJWKS(leafNA, rootNA *int64) {
 
 	b, err := json.Marshal(jose.JSONWebKeySet{Keys: []jose.JSONWebKey{jwk}})
 	if err != nil {
-		e.t.Fatal(err)
+		panic(err)
 	}
 
 	e.jwks.Store(b)
@@ -814,13 +832,17 @@ func (e *env) execOnce(ctx context.Context, c *c10Case, key int, exp *int64, tab
 
 		return errText(xerr), nil, nil
 	case "generic":
-		a, err := e.mf.CreateAuthenticator("1alpha4", fmt.Sprintf("generic_%t_%d", c.Session, palIndex(e.pal, c.Conf)),
-			c.ruleConf("cache_ttl"))
+		proto, prefix := fmt.Sprintf("generic_%t_%d", c.Session, palIndex(e.pal, c.Conf)), "S"
+		if c.TimeFmt && c.Session {
+			proto, prefix = fmt.Sprintf("genericfmt_%d", palIndex(e.pal, c.Conf)), "F"
+		}
+
+		a, err := e.mf.CreateAuthenticator("1alpha4", proto, c.ruleConf("cache_ttl"))
 		if err != nil {
 			return "", nil, err
 		}
 
-		_, xerr := a.Execute(newReq(ctx, map[string]string{"X-Session": cred("S")}))
+		_, xerr := a.Execute(newReq(ctx, map[string]string{"X-Session": cred(prefix)}))
 
 		return errText(xerr), nil, nil
 	case "remote":
@@ -1690,6 +1712,7 @@ func (e *env) genExec(r *vf.Rand) c10Case {
 		c.Session = !r.Chance(20)
 		if c.Session {
 			c.Delta = genDelta(r, 10)
+			c.TimeFmt = r.Chance(35)
 		}
 	}
 
@@ -2078,6 +2101,8 @@ func corpus() []c10Case {
 		{Kind: "exec", Mech: "jwtfin", Conf: p64(5001 * msec)},
 		{Kind: "exec", Mech: "generic", Conf: p64(300 * sec), Session: true, Delta: p64(-10)},
 		{Kind: "exec", Mech: "generic", Conf: p64(300 * sec), Session: true, Delta: p64(-9)},
+		{Kind: "exec", Mech: "generic", Conf: p64(300 * sec), Session: true, TimeFmt: true, Delta: p64(13)},
+		{Kind: "exec", Mech: "generic", Conf: p64(300 * sec), Session: true, TimeFmt: true, Delta: p64(5)},
 		{Kind: "cache", Backend: "mem", Ops: []c10Op{{Op: "set", Key: 1, TTL: 0}, {Op: "get", Key: 1, Adv: 170 * msec}}},
 		{Kind: "cache", Backend: "mem", Ops: []c10Op{{Op: "set", Key: 1, TTL: 60 * msec}, {Op: "get", Key: 1}, {Op: "set", Key: 1, TTL: -2}, {Op: "get", Key: 1, Adv: 170 * msec}}},
 		{Kind: "cache", Backend: "mem", Ops: []c10Op{{Op: "set", Key: 1, TTL: 60 * msec}, {Op: "get", Key: 1, Adv: 35 * msec}, {Op: "get", Key: 1, Adv: 35 * msec}, {Op: "get", Key: 1, Adv: 35 * msec}}},
